@@ -64,7 +64,14 @@ def translate(R):
         if tchanged:
             R.log("GenTemplates.v rewritten: the generator's ModelParse template differs from the last translated one")
     except (tmplgen.XlateError, OSError) as e:
-        R.proof_problems.append("the code generator's templates no longer have the translated shape (GenTemplates.v not regenerated): " + str(e)[:500])
+        # docs/ROBUST_TRANSLATORS.md rule 2: an unrecognised skeleton is not an alarm.  The committed GenTemplates.v stays (the
+        # template_* theorems then speak about the last recognised template); the differential run — every generated parser
+        # with unknown-element insertion, ordered walks, skip processing — decides about the tree's templates.
+        msg = "translator: the ModelParse template skeleton was not recognised (%s); committed GenTemplates.v kept; the differential run decides" % str(e)[:300]
+        R.notes.append(msg)
+        R.coverage.setdefault("translation_incomplete", []).append("codegen templates: " + str(e)[:300])
+        R.coverage["templates"] = dict(recognised=False, reason=str(e)[:300])
+        R.log(msg)
     json.dump(pkgs, open(os.path.join(rundir(R), "schemas.json"), "w"))
     nmodels = sum(len(p["models"]) for p in pkgs)
     ngen = sum(len(p["generated_encoders"]) for p in pkgs)
